@@ -345,21 +345,23 @@ end
 
 mutual
 /-- Cost of decoding the encoding of `v`: one unit per value and key read, plus — charged explicitly —
-the `a.Size()` call the container decoder makes on every child after decoding it (`walk a`). -/
-def costV : Val → Nat
-  | .obj ps => 1 + costP ps
-  | .ecma _ ps => 1 + costP ps
-  | .strict ps => 1 + costP ps
+what the container decoder pays to advance past each child after decoding it: the `a.Size()` re-walk
+of the whole child (`walk a`) when `rewalk`, one unit when the child reports what it consumed. -/
+def costV (rewalk : Bool) : Val → Nat
+  | .obj ps => 1 + costP rewalk ps
+  | .ecma _ ps => 1 + costP rewalk ps
+  | .strict ps => 1 + costP rewalk ps
   | _ => 1
-def costP : Props → Nat
+def costP (rewalk : Bool) : Props → Nat
   | .nil => 0
-  | .cons _ v tl => 1 + costV v + walk v + costP tl
+  | .cons _ v tl => 1 + costV rewalk v + (if rewalk then walk v else 1) + costP rewalk tl
 end
 
-/-- Cost of a successful decode of `bs` (0 when it does not decode). -/
+/-- Cost of a successful decode of `bs` (0 when it does not decode), for the decoder the source has
+NOW (`Gen.Amf0.childAdvanceIsConstant` is regenerated from amf0.go on every run). -/
 def cost (bs : Bytes) : Nat :=
   match decode bs with
-  | .ok (v, _) => costV v
+  | .ok (v, _) => costV (!Gen.Amf0.childAdvanceIsConstant) v
   | _ => 0
 
 /-- `d` objects nested in each other under key `k` around `v` (the adversarial family of K3). -/
